@@ -482,8 +482,9 @@ def interpolate_laplacian(molgrid: MolGrid | AtomGrid, func_vals: np.ndarray):
 
             return first_component + second_component - third_component
 
+        # bind this atom's function (and thereby its segment): the name is re-bound by the next atom
         interpolate_funcs.append(
-            lambda points, cut_off, atom_grid=atom_grid: interpolate_laplacian_atom_grid(
+            lambda points, cut_off, atom_grid=atom_grid, func=interpolate_laplacian_atom_grid: func(
                 points, atom_grid, cut_off
             )
         )
